@@ -158,7 +158,17 @@ def sign_case(case):
         ssig = P(libx.call('sign/sign', keys[0].sign, h)[1] + bytes([ht])) + P(pubs[0])
     else:
         chosen = sorted(case['signers'])[:case['m']]
-        ssig = b'\x00' + b''.join(P(libx.call('sign/sign', keys[i].sign, h)[1] + bytes([ht])) for i in chosen)
+        parts = []
+        for j, i in enumerate(chosen):
+            htj, hj = ht, h
+            if case.get('mixht') and j % 2 == 1:
+                # co-signers may use DIFFERENT hash types; here the one that differs only in the ANYONECANPAY bit, which commits
+                # to more (or less) but whose digest is a separate one
+                htj = ht ^ 0x80
+                rj = libx.call('sign/sighash', SignatureHash, CScript(code), tx, idx, htj, allowed=(ValueError,))
+                hj = rj[1] if rj[0] == 'ok' else libx.call('sign/rawsighash', RawSignatureHash, CScript(code), tx, idx, htj)[1][0]
+            parts.append(P(libx.call('sign/sign', keys[i].sign, hj)[1] + bytes([htj])))
+        ssig = b'\x00' + b''.join(parts)
     if redeem is not None:
         ssig += P(redeem)
     case['ssig'] = ssig.hex()
@@ -208,19 +218,31 @@ def check_case(case):
                                     tag, idx, 'accepted' if r[0] == 'ok' else 'rejected: ' + str(r[1])[:60], tname, 'with' if F['wit'] else 'without'))
         cls.append('verifysignature' + (':witness-funding' if fj['wit'] else ''))
     d0, _ = RS.legacy(code, m, idx, ht)
+    mixed = bool(case.get('mixht')) and case['template'] == 'multisig' and case['m'] >= 2
+    if mixed:
+        cls.append('mixed-hashtypes')
     distinct = len(set(m['vout'])) == len(m['vout']) and len(set((h, n) for h, n, _, _ in m['vin'])) == len(m['vin']) and \
         (7, b'\x52') not in m['vout']
     cls.append('table-crosscheck' if distinct else 'table-skipped-degenerate')
     evals = 1
-    for name, f, table in edits(m, idx):
+    ed_list = edits(m, idx)
+    if case.get('few_edits'):
+        keep = {0, 1, idx - 1, idx, idx + 1, len(m['vin']) - 1, 256, 257}
+        ed_list = [e for e in ed_list if not re.match(r'(in|out)(\d+)-', e[0]) or int(re.match(r'(in|out)(\d+)-', e[0]).group(2)) in keep]
+    for name, f, table in ed_list:
         m2 = copy.deepcopy(m)
         m2['vin'] = list(m2['vin'])
         m2['vout'] = list(m2['vout'])
         idx2 = f(m2)
         d1, _ = RS.legacy(code, m2, idx2, ht)
         committed = d0 != d1
+        if mixed:
+            # a second co-signer used ht ^ 0x80: the edit is committed to as soon as EITHER digest changes
+            committed = committed or RS.legacy(code, m, idx, ht ^ 0x80)[0] != RS.legacy(code, m2, idx2, ht ^ 0x80)[0]
         tv = table_verdict(table, m, idx, m2, idx2, base, acp, name)
-        if m2 == m and idx2 == idx:
+        if mixed:
+            tv = None
+        elif m2 == m and idx2 == idx:
             tv = False          # the edit was a no-op on this transaction (e.g. swapping two identical outputs)
         elif not distinct:
             tv = None           # the table presumes pairwise distinct inputs/outputs; the reference digest decides
@@ -246,7 +268,8 @@ def check_case(case):
         d3, _ = RS.legacy(code, m3, idx, ht)      # the consensus digest for a position that does not exist is the constant 1 ...
         for mut_ in (False, True):
             ok3 = _verify(m3, idx, ssig, spk, mut_)
-            if ok3 != (d3 == d0):                  # ... which is also what a SIGHASH_SINGLE signature without matching output signed
+            same3 = d3 == d0 and (not mixed or RS.legacy(code, m3, idx, ht ^ 0x80)[0] == RS.legacy(code, m, idx, ht ^ 0x80)[0])
+            if ok3 != same3:                       # ... which is also what a SIGHASH_SINGLE signature without matching output signed
                 raise Violation('%s/position-removed/%s' % ('committed-edit-accepted' if ok3 else 'uncommitted-edit-rejected', htname),
                                 'VerifyScript %s input %d of a transaction that now has %d inputs' % ('accepts' if ok3 else 'rejects', idx, idx))
         evals += 2
@@ -292,9 +315,26 @@ def s_case(draw):
     ht = draw(st.one_of(st.sampled_from(HTS), st.integers(0, 255)))
     return {'tx': tx, 'idx': draw(st.integers(0, nin - 1)), 'template': template, 'p2sh': draw(st.booleans()), 'm': m, 'n': n,
             'keys': keys, 'signers': list(draw(st.permutations(list(range(n))))), 'compressed': draw(st.booleans()), 'ht': ht,
-            'foreign': perm[3], 'mutable': draw(st.booleans()),
+            'foreign': perm[3], 'mutable': draw(st.booleans()), 'mixht': draw(st.integers(0, 3)) == 0,
             'funding': draw(st.one_of(st.none(), st.fixed_dictionaries({'n': st.integers(0, 2), 'nout': st.just(3), 'wit': st.booleans(),
                                                                         'salt': st.integers(0, 10 ** 6)})))}
+
+
+def t_big(ctx):
+    """a spending transaction with 260 inputs and outputs, signed at positions 0, 255, 256, 257, 259 with every kind of hash type"""
+    nin = 260
+    t = {'version': 2, 'vin': [[bytes([i % 256, i // 256] + [9] * 30).hex(), i, '', 0xffffffff - i] for i in range(nin)],
+         'vout': [[1000 + i, '51'] for i in range(nin)], 'wit': None, 'locktime': 7}
+    k_ = 0
+    for idx in (0, 255, 256, 257, 259):
+        for ht in (1, 2, 3, 0x81, 0x82, 0x83):
+            k_ += 1
+            if k_ % ctx.nshards == ctx.shard:
+                ctx.run({'tx': t, 'idx': idx, 'template': ['p2pkh', 'multisig', 'p2pk'][k_ % 3], 'p2sh': bool(k_ % 2), 'm': 2, 'n': 3, 'keys': [0, 1, 2],
+                         'signers': [2, 0, 1], 'compressed': bool(k_ % 4 < 2), 'ht': ht, 'foreign': 3, 'mutable': bool(k_ % 3 == 0), 'mixht': k_ % 5 == 0,
+                         'funding': None, 'few_edits': True})
+    if ctx.shard == 0:
+        ctx.exhaustive.append('260-input / 260-output spend signed at positions 0, 255, 256, 257, 259 x 6 hash types')
 
 
 def coverage_gaps(classes, tier):
@@ -312,4 +352,4 @@ def t_main(ctx):
         ctx.exhaustive.append('every applicable edit of the catalogue for every signed case')
 
 
-TASKS = [('sign_edit_verify', (t_main, 16))]
+TASKS = [('sign_edit_verify', (t_main, 16)), ('big', (t_big, 6))]
